@@ -1,0 +1,201 @@
+//go:build verif
+
+/*
+ * Verification exports (add-only, compiled only with `-tags verif`) for the encryption-at-rest
+ * checks: cipher uses of log files and tables, the key registry in stored form, the log record
+ * codec with an explicit data key.
+ */
+
+package badger
+
+import (
+	"bytes"
+	"encoding/binary"
+	"hash/crc32"
+	"os"
+
+	"github.com/dgraph-io/badger/v4/pb"
+	"github.com/dgraph-io/badger/v4/table"
+	"github.com/dgraph-io/badger/v4/y"
+	"google.golang.org/protobuf/proto"
+)
+
+// VerifDataKey is a data key of the registry (Data in plain text, as the registry holds it).
+type VerifDataKey struct {
+	ID        uint64
+	Data      []byte
+	IV        []byte
+	CreatedAt int64
+}
+
+// VerifDataKeys lists the data keys the open registry holds.
+func (db *DB) VerifDataKeys() []VerifDataKey {
+	db.registry.RLock()
+	defer db.registry.RUnlock()
+	var out []VerifDataKey
+	for _, k := range db.registry.dataKeys {
+		out = append(out, VerifDataKey{ID: k.KeyId, Data: y.Copy(k.Data), IV: y.Copy(k.Iv), CreatedAt: k.CreatedAt})
+	}
+	return out
+}
+
+// VerifLogUse describes the cipher uses of one log file (memtable WAL or value log): every
+// record's start offset (the offset generateIV is called with), the number of encrypted bytes
+// (key + value) and the record length.
+type VerifLogUse struct {
+	Name    string
+	KeyID   uint64
+	BaseIV  []byte
+	Offsets []uint32
+	KVLens  []uint32
+	RecLens []uint32
+}
+
+func verifLogUse(lf *logFile) (VerifLogUse, error) {
+	u := VerifLogUse{Name: lf.path, KeyID: lf.keyID(), BaseIV: y.Copy(lf.baseIV)}
+	_, err := lf.iterate(true, 0, func(e Entry, vp valuePointer) error {
+		u.Offsets = append(u.Offsets, vp.Offset)
+		u.KVLens = append(u.KVLens, uint32(len(e.Key)+len(e.Value)))
+		u.RecLens = append(u.RecLens, vp.Len)
+		return nil
+	})
+	return u, err
+}
+
+// VerifLogUses walks the WAL of the active and of every immutable memtable and every value-log
+// file with the production iterator.
+func (db *DB) VerifLogUses() ([]VerifLogUse, error) {
+	var out []VerifLogUse
+	db.lock.RLock()
+	mts := append([]*memTable{}, db.imm...)
+	if db.mt != nil {
+		mts = append(mts, db.mt)
+	}
+	db.lock.RUnlock()
+	for _, mt := range mts {
+		if mt.wal == nil {
+			continue
+		}
+		u, err := verifLogUse(mt.wal)
+		if err != nil {
+			return out, err
+		}
+		out = append(out, u)
+	}
+	db.vlog.filesLock.RLock()
+	var lfs []*logFile
+	for _, lf := range db.vlog.filesMap {
+		lfs = append(lfs, lf)
+	}
+	db.vlog.filesLock.RUnlock()
+	for _, lf := range lfs {
+		lf.lock.RLock()
+		u, err := verifLogUse(lf)
+		lf.lock.RUnlock()
+		if err != nil {
+			return out, err
+		}
+		out = append(out, u)
+	}
+	return out, nil
+}
+
+// VerifTableEnc is the stored form of one table of the tree.
+type VerifTableEnc struct {
+	ID     uint64
+	Level  int
+	KeyID  uint64
+	Blocks []table.VerifEncPart
+	Index  table.VerifEncPart
+	File   []byte
+}
+
+// VerifTablesEnc lists every table of the tree with its stored blocks and index.
+func (db *DB) VerifTablesEnc() ([]VerifTableEnc, error) {
+	var out []VerifTableEnc
+	for lvl, lh := range db.lc.levels {
+		lh.RLock()
+		tbls := append([]*table.Table{}, lh.tables...)
+		lh.RUnlock()
+		for _, t := range tbls {
+			kid, blocks, index, file, err := t.VerifEncParts()
+			if err != nil {
+				return out, err
+			}
+			out = append(out, VerifTableEnc{ID: t.ID(), Level: lvl, KeyID: kid, Blocks: blocks, Index: index, File: file})
+		}
+	}
+	return out, nil
+}
+
+// VerifEncLogRecord runs logFile.encodeEntry with an explicit data key (nil = no encryption).
+func VerifEncLogRecord(key, value []byte, meta, userMeta byte, expiresAt uint64, offset uint32, aesKey, baseIV []byte) ([]byte, error) {
+	lf := &logFile{baseIV: baseIV}
+	if aesKey != nil {
+		lf.dataKey = &pb.DataKey{KeyId: 1, Data: aesKey}
+	}
+	var buf bytes.Buffer
+	_, err := lf.encodeEntry(&buf, &Entry{Key: key, Value: value, meta: meta, UserMeta: userMeta, ExpiresAt: expiresAt}, offset)
+	return append([]byte{}, buf.Bytes()...), err
+}
+
+// VerifDecLogRecord runs logFile.decodeEntry (the value-log read path) on a whole record.
+func VerifDecLogRecord(rec []byte, offset uint32, aesKey, baseIV []byte) (key, value []byte, ok bool) {
+	lf := &logFile{baseIV: baseIV}
+	if aesKey != nil {
+		lf.dataKey = &pb.DataKey{KeyId: 1, Data: aesKey}
+	}
+	defer func() {
+		if recover() != nil {
+			ok = false
+		}
+	}()
+	e, err := lf.decodeEntry(rec[:len(rec):len(rec)], offset)
+	if err != nil {
+		return nil, nil, false
+	}
+	return y.Copy(e.Key), y.Copy(e.Value), true
+}
+
+// VerifRegistryRecord is one stored data key of a KEYREGISTRY file: the fields as stored
+// (Data still encrypted with the master key), the record's CRC and protobuf bytes.
+type VerifRegistryRecord struct {
+	Key VerifDataKey
+	CRC uint32
+	PB  []byte
+}
+
+// VerifParseKeyRegistry splits a KEYREGISTRY file into IV, stored sanity text and records
+// without decrypting anything; ok=false when a record is torn or fails its checksum.
+func VerifParseKeyRegistry(path string) (iv, sanity []byte, recs []VerifRegistryRecord, ok bool) {
+	b, err := os.ReadFile(path)
+	if err != nil || len(b) < 16+len(sanityText) {
+		return nil, nil, nil, false
+	}
+	iv, sanity = b[:16], b[16:16+len(sanityText)]
+	b = b[16+len(sanityText):]
+	for len(b) > 0 {
+		if len(b) < 8 {
+			return iv, sanity, recs, false
+		}
+		l := int(binary.BigEndian.Uint32(b[0:4]))
+		c := binary.BigEndian.Uint32(b[4:8])
+		if len(b) < 8+l {
+			return iv, sanity, recs, false
+		}
+		data := b[8 : 8+l]
+		if crc32.Checksum(data, y.CastagnoliCrcTable) != c {
+			return iv, sanity, recs, false
+		}
+		dk := &pb.DataKey{}
+		if err := proto.Unmarshal(data, dk); err != nil {
+			return iv, sanity, recs, false
+		}
+		recs = append(recs, VerifRegistryRecord{Key: VerifDataKey{ID: dk.KeyId, Data: dk.Data, IV: dk.Iv, CreatedAt: dk.CreatedAt}, CRC: c, PB: y.Copy(data)})
+		b = b[8+l:]
+	}
+	return iv, sanity, recs, true
+}
+
+// VerifSanityText is the registry's sanity text.
+func VerifSanityText() []byte { return y.Copy(sanityText) }
